@@ -83,4 +83,90 @@ def SubOkE (m : Mesh) (s : Region) : Prop :=
 /-- every subregion held by the mesh fits it exactly -/
 def SubInv (m : Mesh) : Prop := ∀ p ∈ m.subs, SubOkE m p.2
 
+/-! ## persistence: the JSON side-car of `Mesh.save_subregions` / `Mesh.load_subregions`
+
+`save_subregions` dumps `{name: region.to_dict()}`; `load_subregions` parses the file, builds
+`Region(**val)` for every entry (the keyword path of the constructor: `pmin < pmax` on every axis,
+then the ordinary constructor) and assigns the dictionary through the `subregions` setter.  The
+text layer (`json.dump` / `json.load`, `repr` of binary64) is trusted; the model starts at the
+JSON value tree. -/
+
+/-- JSON values, as far as the side-car needs them -/
+inductive JV where
+  | num (q : Rat)
+  | str (s : String)
+  | arr (xs : List JV)
+  | obj (kvs : List (String × JV))
+
+/-- `Region.to_dict()` under `Region._JSONEncoder` -/
+def regionToJV (r : Region) : JV :=
+  .obj [("pmin", .arr (r.pmin.map .num)), ("pmax", .arr (r.pmax.map .num)),
+        ("dims", .arr (r.dims.map .str)), ("units", .arr (r.units.map .str)),
+        ("tolerance_factor", .num r.tol)]
+
+/-- `Mesh.save_subregions`: the value tree written to `<file>.subregions.json` -/
+def saveSubs (m : Mesh) : JV := .obj (m.subs.map fun p => (p.1, regionToJV p.2))
+
+def numOf : JV → M Rat
+  | .num q => .ok q
+  | _ => .error .type
+
+def strOf : JV → M String
+  | .str s => .ok s
+  | _ => .error .type
+
+def numsOf : JV → M (List Rat)
+  | .arr xs => xs.mapM numOf
+  | _ => .error .type
+
+def strsOf : JV → M (List String)
+  | .arr xs => xs.mapM strOf
+  | _ => .error .type
+
+def lookupJV (kvs : List (String × JV)) (k : String) : Option JV := (kvs.find? fun p => p.1 == k).map (·.2)
+
+/-- optional keyword argument: absent = default -/
+def optStrs : Option JV → M (Option (List String))
+  | none => .ok none
+  | some j => match strsOf j with
+    | .ok l => .ok (some l)
+    | .error e => .error e
+
+def optTol : Option JV → M Rat
+  | none => .ok (1/1000000000000)
+  | some j => numOf j
+
+/-- `Region(**val)`: the `pmin`/`pmax` keyword path (element-wise `pmin < pmax`), then the
+ordinary constructor -/
+def regionOfJV : JV → M Region
+  | .obj kvs =>
+    match lookupJV kvs "pmin", lookupJV kvs "pmax" with
+    | some j1, some j2 =>
+      match numsOf j1, numsOf j2, optStrs (lookupJV kvs "dims"), optStrs (lookupJV kvs "units"),
+            optTol (lookupJV kvs "tolerance_factor") with
+      | .ok p1, .ok p2, .ok d, .ok u, .ok t =>
+        if p1.length ≠ p2.length then .error .value
+        else if !allLt p1.length (fun a => decide (p1.getD a 0 < p2.getD a 0)) then .error .value
+        else Region.mk? p1 p2 d u t
+      | .error e, _, _, _, _ => .error e
+      | _, .error e, _, _, _ => .error e
+      | _, _, .error e, _, _ => .error e
+      | _, _, _, .error e, _ => .error e
+      | _, _, _, _, .error e => .error e
+    | _, _ => .error .type
+  | _ => .error .type
+
+/-- the dictionary `{key: Region(**val)}` built by `load_subregions` -/
+def subsOfJV : JV → M (List (String × Region))
+  | .obj kvs => kvs.mapM fun kv => match regionOfJV kv.2 with
+    | .ok r => .ok (kv.1, r)
+    | .error e => .error e
+  | _ => .error .type
+
+/-- `Mesh.load_subregions`: parse, build the regions, assign through the setter -/
+def loadSubs (m : Mesh) (j : JV) : M Mesh :=
+  match subsOfJV j with
+  | .ok subs => setSubs m subs
+  | .error e => .error e
+
 end DFV.C14
